@@ -202,10 +202,16 @@ def sig_c04_jsr_groups(ev, mis, table):
     if o["k"] != "route":
         return False
     ts = toks(o["selp"])
+    segs = toks(ev["req"]["path"])
+    bound = {p[0]: p[1] for p in o["params"]}
     for i, t in enumerate(ts):
         if t.startswith("{") and ":" in t and "(" in t.split(":", 1)[1]:
-            if any(is_var(x) for x in ts[i + 1:]):
+            # the variable with the group of its own is bound to its segment (its expression as a whole is the first
+            # group); it is a LATER variable whose value comes from the wrong group
+            name = t[1:].split(":", 1)[0]
+            if i < len(segs) and bound.get(name) == segs[i] and any(is_var(x) for x in ts[i + 1:]):
                 return True
+            return False
     return False
 
 
